@@ -133,31 +133,46 @@ acc.join() + [1, 2].map(function(v) { return v * 2; });
 }
 
 // Prelude is run once on a template runtime before it is copied: it gives the
-// copies non-trivial user state of every clonable kind (array, regexp with
-// lastIndex, date, error, closure with captured counter, bound function,
-// accessor, arguments object).
+// copies non-trivial user state of every clonable kind: array, regexp with
+// lastIndex, date, error, closure with captured counter, accessor, arguments
+// object, and bound functions with 1-4 bound arguments, primitive-only and
+// with object arguments. The bind calls are made with 2, 3 and 5 arguments on
+// purpose: the bound list is a sub-slice of the bind call's argument slice
+// (capacities 2, 4, 8), so cat and cat4 carry spare capacity that a later call
+// with extra arguments appends into in place. The receivers of the bound
+// concat functions convert through a JavaScript toString, which puts
+// scheduling points between that append and the use of the argument list.
 const Prelude = `
 var T = {
-  arr: [1, 2, 3], re: /t+/g, d: new Date(86400000), err: new Error("tmpl"), counter: 0,
-  obj: {n: {deep: [0]}},
+  arr: [1, 2, 3], re: /t+/g, d: new Date(86400000), err: new Error("tmpl"), counter: 0, seen: 0,
+  obj: {n: {deep: [0]}, gone: 1},
   next: (function() { var c = 0; return function() { c++; return c; }; })(),
   add: function(x) { return x + this.k; },
+  mix: function(o, p, q) { return o.deep.length + p + q + this.k; },
   args: (function(a, b) { return arguments; })(1, 2)
 };
+T.subject = {toString: function() { T.seen++; return "s:"; }};
 T.bound = T.add.bind({k: 10});
+T.cat = String.prototype.concat.bind(T.subject, "a", "b");
+T.cat4 = String.prototype.concat.bind(T.subject, 1, 2, 3, 4);
+T.cat1 = String.prototype.concat.bind(T.subject, "z");
+T.pushb = Array.prototype.push.bind(T.arr, 7, 8);
+T.bobj = T.mix.bind({k: 10}, T.obj.n, 2);
 Object.defineProperty(T, "acc", {get: function() { return this.counter * 2; }, set: undefined, configurable: true});
 T.re.exec("xttty");
 T.next();
 "prelude";
 `
 
-// Probe reads and mutates the template-derived state; it runs on a copy before
-// and after the body, so state wrongly shared between copies (or with the
+// Probe reads, calls and mutates the template-derived state (TID is the
+// per-thread constant the harness sets on every runtime); it runs on a copy
+// after the body, so state wrongly shared between copies (or with the
 // template) shows up in the other copy's log.
 const Probe = `
-T.arr.push(T.counter++); T.d.setUTCDate(T.next() + 1); T.obj.n.deep[0]++;
+T.arr.push(T.counter++); T.d.setUTCDate(T.next() + 1); T.obj.n.deep[0]++; delete T.obj.gone; T.d.setTime(T.d.getTime() + TID);
 log(T.arr.join(), T.acc, T.bound(T.args[0]++), T.obj.n.deep[0], T.d.getTime(), T.re.test("ttxtt"), T.re.lastIndex, T.err.message += "!");
+log(T.cat("<" + TID + ">"), T.cat4(TID, "!"), T.cat1(TID), T.pushb(TID), T.bobj(TID), T.seen, "gone" in T.obj);
 `
 
 // ProbeMini is the short probe of the copy-only scenario.
-const ProbeMini = `T.arr.push(T.next()); log(T.arr.join(), T.counter++, T.re.lastIndex++);`
+const ProbeMini = `T.arr.push(T.next()); log(T.arr.join(), T.counter++, T.re.lastIndex++, T.cat(TID), T.pushb(TID));`
